@@ -8,11 +8,4 @@ WT=/tmp/wt$R-$ID; D=/verif/seeded/$ID-seed$R
 [ -d $WT/seed ] || { echo "no $WT/seed"; exit 1; }
 mkdir -p $D; cp -r $WT/seed/. $D/; echo "$CH" > $D/checks.txt
 git -C /repo worktree remove --force $WT; rm -rf $WT
-(
-  flock 9
-  cd /verif
-  tools/confirm_seed.sh seeded/$ID-seed$R > $D/confirm.log 2>&1
-  ONLY=$ID-seed$R tools/seed_matrix.sh > $D/detect.log 2>&1
-  rm -rf /tmp/mutm-harness/target /tmp/mutm-out-*
-) 9>/tmp/seedq.lock
-echo "done $ID-seed$R: $(jq -c '.confirmed' $D/confirm.json) $(jq -c '[.caught_by,.not_caught_by]' $D/detect.json)"
+exec setsid /verif/tools/ingest2.sh $ID-seed$R
